@@ -25,6 +25,13 @@ pub struct Cfg {
     pub downgrade: bool,
     pub will: Option<WillCfg>,
     pub auth: Option<(String, Vec<u8>)>,
+    /// Executor latency (ticks) added when virtual time jumps to a timer deadline (`PollFor`).
+    #[serde(default)]
+    pub jitter_us: u64,
+    /// Delay (ticks) of the broker's PINGRESP for the 1st, 2nd, … PINGREQ (cyclic); `None` entry =
+    /// never answered; empty = no automatic answers.
+    #[serde(default)]
+    pub ping_delays_us: Vec<Option<u64>>,
 }
 
 impl Default for Cfg {
@@ -38,6 +45,8 @@ impl Default for Cfg {
             downgrade: false,
             will: None,
             auth: None,
+            jitter_us: 0,
+            ping_delays_us: vec![],
         }
     }
 }
@@ -258,6 +267,10 @@ pub enum Step {
     Eof,
     /// Advance virtual time by `ms`.
     Advance { ms: u32 },
+    /// The application stays in poll() for `ms` of virtual time (time flows to deadlines/arrivals).
+    PollFor { ms: u32 },
+    /// A broker PUBLISH that becomes readable `delay_ms` from now.
+    DeliverAt { delay_ms: u32, qos: u8, payload: PayloadSpec },
     /// Consume up to `n` packet identifiers cheaply: QoS 1 publishes that the client refuses
     /// locally because its send window / in-flight slots are exhausted (skipped while it can publish).
     Burn { n: u32 },
